@@ -170,6 +170,16 @@ def M6():
     )
 
 
+def M6S():
+    """flows that enter a sink directly from a junction (residual and stated) and from a source compartment"""
+    return dict(
+        name="M6S",
+        comps=[dict(name="src", source="y"), dict(name="a", default=100), dict(name="j", junction="y", setup=True, default=9), dict(name="b", default=5), dict(name="dead", sink="y"), dict(name="lostb", sink="y")],
+        pars=[dict(name="birth", format="number", default=12), dict(name="still", format="number", default=3), dict(name="aj", format="probability", default=0.4), dict(name="pd", format="proportion", default=0.3), dict(name="back", format="rate", default=0.1)],
+        transitions={("src", "a"): "birth", ("src", "lostb"): "still", ("a", "j"): "aj", ("j", "dead"): "pd", ("j", "b"): ">", ("b", "a"): "back"},
+    )
+
+
 def M7(dur=0.5):
     """timed compartment with flush + ordinary outflow"""
     return dict(
@@ -234,6 +244,9 @@ def M10():
             dict(name="foi2", format="number", function="foi*2+base"),
             dict(name="recov", format="duration", default=2.0, min=0.1),
             dict(name="wane", format="rate", function="max(0,0.2-0.01*(t-2000))*mult"),
+            dict(name="trend", format="number", function="0.1+0.01*(t-2000)"),
+            dict(name="net", format="number", function="0.05-prev", min=0.0),
+            dict(name="capped", format="number", function="prev-0.05", max=0.0),
         ],
         transitions={("sus", "inf"): "foi", ("inf", "rec"): "recov", ("rec", "sus"): "wane"},
     )
@@ -373,7 +386,7 @@ def random_spec(seed):
     return dict(name="R%d" % seed, comps=comps, pars=pars, transitions=trans)
 
 
-CATALOGUE = dict(M1=M1, M2=M2, M4=M4, M5=M5, M5C=M5C, M5F=M5F, M5R=M5R, M6=M6, M7=M7, M8=M8, M8J=M8J, M8R=M8R, M8B=M8B, M10=M10, M10F=M10F, M7F=M7F, M12=M12, M12c=M12c)
+CATALOGUE = dict(M1=M1, M2=M2, M4=M4, M5=M5, M5C=M5C, M5F=M5F, M5R=M5R, M6=M6, M6S=M6S, M7=M7, M8=M8, M8J=M8J, M8R=M8R, M8B=M8B, M10=M10, M10F=M10F, M7F=M7F, M12=M12, M12c=M12c)
 
 
 RANDOM_SEEDS = [3, 4, 5, 6, 7, 9, 12, 14, 21, 22, 23, 29, 31, 35, 37, 42, 47, 51, 55, 58, 59]  # seeds whose framework passes validation (probed once)
